@@ -23,7 +23,7 @@ PROPS = {
         "kernel_sample": 400,
         "rule": "boundary grid (12 colours x 20 widths x 20 heights x lengths {0,1,exact-1,exact,exact+1,4096,2^32+5,2^33+4096} x ~20 pitches incl. "
                 "bpr-1/bpr/bpr+1, largest fitting pitch +-1, pitches whose product with h-1 wraps 2^64) for both view types and both constructors, "
-                "plus seeded random small geometries with crops (inside / touching / one past / u32-overflowing / empty); distinct = distinct case lines",
+                "plus seeded random small geometries with crops (inside / touching / one past / u32-overflowing / empty); distinct = distinct case lines; read_cube_map into padded views and into crops of larger views equals the contiguous read, nothing outside changes",
         "trusted_base": BASE_TRUST,
         "assumptions": ["slices are at most isize::MAX bytes long (Rust guarantee)", "ColorFormat::bytes_per_pixel in 1..=16 (observed for all 12 formats each run)"],
     },
@@ -44,7 +44,7 @@ PROPS = {
         "rule": "exhaustive operation sequences of depth 4 (quick) / 6 (thorough) over the 7 operation kinds on 22 layouts (texture 1/3/full/over-full mips, "
                 "array 0/3/2, cube, cube+mips, cube array, 8 partial cubes, 3 volumes, 1D) with one format per family rotating, plus seeded random sequences "
                 "of depth 5..40 incl. wrong-size and out-of-bounds variants on all 5 formats, plus skip/rewind-only sequences on layouts above i64::MAX bytes; "
-                "after every call: verdict, next surface size/len/is-mipmap, reader position, and for cube reads which cells were written with which array element; distinct = distinct case lines",
+                "after every call: verdict, next surface size/len/is-mipmap, reader position, and for cube reads which cells were written with which array element; distinct = distinct case lines; non-square cube faces; cube reads into views with padded rows",
         "trusted_base": BASE_TRUST + ["the decode call itself is abstracted to 'consumes exactly the surface length' (that is C06's theorem and check)"],
         "assumptions": ["mip count is NonZeroU32 (>= 1)", "reader is an in-memory cursor: seeks fail only for amounts above i64::MAX or negative positions"],
     },
@@ -78,7 +78,7 @@ PROPS = {
         "kernel_sample": 200,
         "rule": "14 layouts x 6 formats x seeded sizes 1..70 (all residues of the block sizes; odd sizes for NV12 in a quarter of the cases) x mip counts {1, 1..4, full chain} x volume depths 1..5 "
                 "x generate on/off with toggles x parallel on/off x random call sequences ending in finish; byte count after every call vs the model; every finished file is re-opened: "
-                "length = header + data length, same header, format and layout, every surface decodes, last surface ends at EOF; distinct = distinct case lines",
+                "length = header + data length, same header, format and layout, every surface decodes, last surface ends at EOF; distinct = distinct case lines; every encodable format x all 12 input colour formats at widths 342.., 1025, 1366..; tag 54 shares the sub-sampled chunk events with C12",
         "trusted_base": BASE_TRUST + ["re-reading equality of header/format/layout and decodability of every surface are implementation-only oracles of this check (header model: C09; pixel content: C03-C05, C12)"],
         "assumptions": ["12 input colour formats x quality x dithering x metric are exercised by C12/C13/C15, not here: this check feeds RGBA_U8 at quality Fast"],
     },
@@ -98,7 +98,7 @@ PROPS = {
                 "26 FourCCs incl. unknown ones, the 19 mask rows and perturbations of them, with builder chains (with_mipmaps, with_mipmap_count, with_cube_map_faces, ...); each written and parsed strict / permissive (+- file length); "
                 "plus one u32 field of the written image replaced by a boundary value (0,1,2^k,2^k-1,2^k+1,MAX), truncations, bad magic, skip_magic, and fully random raw headers; "
                 "observed per case: parse verdict, parsed header, PixelInfo::from_header, Format::from_header, the bytes written back, to_dx9 / to_dx10 results, layout length; "
-                "implementation-only oracle: write -> read is the identity on every constructed header; distinct = distinct case lines",
+                "implementation-only oracle: write -> read is the identity on every constructed header; distinct = distinct case lines; skip_magic + permissive + file length on consistent, defective and small files",
         "trusted_base": BASE_TRUST + ["header tables (DXGI codes, FourCCs, mask rows, DX10->DX9 conversion rows) regenerated from /repo every run (gen/GenHeader.v); mask rows are scanned from src/detect.rs and each row re-validated against Format::from_header"],
         "assumptions": ["known findings F6a / F6b (headers the container cannot represent) are reported as KNOWN-FINDING"],
     },
@@ -116,7 +116,7 @@ PROPS = {
         "harness_timeout": 3000,
         "rule": "model comparison through dds::decode on one 4x4 surface per block, U8, U16 and F32 outputs, native and RGB-only channel layouts: BC1 family colour halves - all 32x32 endpoint pairs per 5-bit channel and all 64x64 (quick: every second) per 6-bit channel in both orderings x 6 index patterns + random; "
                 "BC2 alpha every nibble at every position; BC4/BC5/BC3-alpha all 256x256 endpoint pairs (quick: every 7th) x each index value at all 16 positions + random indices, both SNORM minimum codes; premultiplied (DXT2/DXT4) and RXGB variants; "
-                "BC6H (UF16 and SF16): all 18 mode prefixes (10 two-region, 4 one-region, 4 reserved) x all 32 partitions x {all-zero, all-one, alternating, random, single-bit, extreme-delta} payloads at U8/U16/F32; every third block of every family also at F32 (bit patterns); BC7: every (mode, partition, rotation, index-selector) tuple x {all-zero, all-one, alternating, random, single-bit set/cleared} payloads, the reserved mode, random blocks; for BC7 the case also fails when the implementation-shaped and the specification-shaped decoder disagree on the block; distinct = distinct case lines",
+                "BC6H (UF16 and SF16): all 18 mode prefixes (10 two-region, 4 one-region, 4 reserved) x all 32 partitions x {all-zero, all-one, alternating, random, single-bit, extreme-delta} payloads at U8/U16/F32; every third block of every family also at F32 (bit patterns); BC7: every (mode, partition, rotation, index-selector) tuple x {all-zero, all-one, alternating, random, single-bit set/cleared} payloads, the reserved mode, random blocks; for BC7 the case also fails when the implementation-shaped and the specification-shaped decoder disagree on the block; distinct = distinct case lines; structured index lists (solid, solid except the anchor, two-valued, ramp) behind random endpoints for the single-subset BC7 modes and the one-region BC6H modes, constant index bits for the others",
         "trusted_base": BASE_TRUST + ["spec/SpecBC.v (nearest-rounding specification of BC1-5 palettes) and the BC7 mode table of model/BC7.v are written from the format description",
                                       "spec/SpecBC7Tables.v, spec/SpecBC6Tables.v: the BC7 partition/anchor tables and the BC6H bit layout were transcribed from the pinned commit (no independent copy of the standard is available offline); only their structure is proved (tables_structure)"],
         "assumptions": ["the blue channel that BC3_UNORM_NORMAL reconstructs with a square root is not modelled", "U16 output of the BC1-3 family and BC7 is specified as the 8-bit result widened exactly (x257), which is what the format specification's 8-bit decode followed by an exact UNORM conversion gives"],
@@ -139,7 +139,7 @@ PROPS = {
         "harness_timeout": 3000,
         "rule": "model comparison for all 73 formats: random surface data at sizes covering every residue modulo the block size (1..70 x 1..24), rectangles {whole, 1x1, full row, full column, random unaligned}, the 12 output colour formats, row pitch minimal or padded by 1..9 bytes, buffer offset 0..3, prefill 0x00/0xFF; "
                 "the buffer left by decode_rect (and by decode for the whole-surface cases) must equal blit(prefill, crop(rect, channel_map(native -> requested)(full native decode at the same precision))) byte for byte, including every byte outside the addressed rows; "
-                "wide rows (770..3100 pixels) crossing the 3072-byte conversion buffer for 12 representative formats; the reader must end exactly at the end of the surface; distinct = distinct case lines",
+                "wide rows (770..3100 pixels) crossing the 3072-byte conversion buffer for 12 representative formats; the reader must end exactly at the end of the surface; distinct = distinct case lines; call traces of the instrumented code paths against the line-by-line models: tag 51 block lines and ProcessBlocksFn calls (model/RectPath.v), tag 52 ProcessPixelsFn calls (model/PixelPath.v), tag 53 ProcessBiPlanarFn calls (model/BiPlanarPath.v); tall rectangles of 270..520 rows; whole-surface decodes at the format's own colour format into padded views with and without the padding behind the last row",
         "trusted_base": BASE_TRUST + ["the full decode at the format's native channel layout is taken from the implementation as the reference image (its values are the subject of C03/C04)"],
         "assumptions": ["native-layout full decodes of BC6H and ASTC are not independently modelled; for them C05 establishes only that every other way of asking agrees with that decode"],
     },
@@ -149,7 +149,7 @@ PROPS = {
         "harness_timeout": 3000,
         "rule": "model comparison of dds::encode (no dithering) for all 45 non-BC formats - the 7 sub-sampled formats at widths 1..9 (R1: 1..20) x heights 1..3 and the 3 bi-planar formats at even sizes, random channel layout / precision / content (60, thorough 400 images each); the 35 pixel formats x 4 input channel layouts x 3 precisions: every 8-bit value in every channel, 16-bit values (quick: every 37th, thorough all) plus boundaries, f32 specials (NaN, infinities, -0, subnormals, > 1, < 0, 65504), rounding boundaries (k+0.5)/max and k/max +-1 ulp for every field width, random values; "
                 "implementation-only oracles over all 45 non-BC formats: lossless round trips at the native layout where every stored channel holds the input (unstored channels decode to defaults), quantisation error within half a step for UNORM/SNORM fields on random f32 input incl. values outside [0,1], "
-                "and identical encoded bytes for the same pixel values carried as U8 / U16 (x257) / F32 (x/255), as GRAYSCALE / RGB / RGBA, with different row pitches and image shapes; distinct = distinct case lines",
+                "and identical encoded bytes for the same pixel values carried as U8 / U16 (x257) / F32 (x/255), as GRAYSCALE / RGB / RGBA, with different row pitches and image shapes; distinct = distinct case lines; exact round trips under all four dithering modes; tag 54: chunk sequences of for_each_chunk (contiguous and padded views) and of the sub-sampled encoder against model/EncChunks.v",
         "trusted_base": BASE_TRUST + ["model/Float.v (executable IEEE-754 model, validated against the hardware by check C04)"],
         "assumptions": ["dithering is excluded by the property and not modelled", "f32 inputs into the 8- and 16-bit UNORM fields are proved for EVERY 32-bit pattern, into the 2/4/5/6/10-bit UNORM fields and the SNORM8 level for every f32 in [0, 2^40); into SNORM16, XR, float and YUV fields they are compared with the model on boundary and random values only"],
     },
@@ -159,7 +159,7 @@ PROPS = {
         "rule": "implementation-only totality oracle in the debug (overflow-checked) and release builds: 150000 (thorough 3000000) generated files - valid headers from every constructor family (all DXGI codes, FourCCs, mask formats, 2D / cube / volume / array, mip chains), the same with 1-3 u32 fields set to 0/1/2^k/2^k-1/2^k+1/MAX/random, dimension fields mutated, 31 random boundary words with and without a DX10 extension, garbage of 0..160 bytes; "
                 "data length = header only / cut anywhere / exactly the declared length / one short / longer / 2^10..2^45 (served as zeros by a virtual reader); ParseOptions permissive x skip_magic x file_len {None, actual, random, declared}; reader delivering 1-byte / random-length short reads and failing at a byte offset; "
                 "2..11 random operations per parsed file: read_surface into one of the 12 colour formats (surfaces up to 40000 pixels), read_surface_rect of up to 9x9 at corner / far-edge / random offsets (also inside 2^32-sized surfaces), skip_surface, skip_mipmaps, rewind_to_previous_surface, rewind_to_start, layout accessors incl. out-of-range indices; "
-                "violations: a panic, a call slower than 10 s, Ok returned by a call during which the reader reported an error or was asked for bytes beyond its end; plus 20000 (200000) full decodes of truncated / failing valid files that must return an I/O error",
+                "violations: a panic, a call slower than 10 s, Ok returned by a call during which the reader reported an error or was asked for bytes beyond its end; plus 20000 (200000) full decodes of truncated / failing valid files that must return an I/O error; the free functions decode / decode_rect on all 73 formats with empty / tiny images and exact / short / long data; read_cube_map among the random operations",
         "trusted_base": BASE_TRUST + ["the oracle observes panics through catch_unwind and non-termination through a 10 s per-call clock; memory safety is the compiler's (the crate is safe Rust apart from the byte casts of src/cast.rs)"],
         "assumptions": ["block decoders (BC, ASTC) and pixel conversions are total functions on fixed-size inputs; their totality is exercised by the oracle, and for the modelled ones follows from the models of C03/C04 being total"],
     },
@@ -168,7 +168,7 @@ PROPS = {
         "harness_timeout": 3000,
         "rule": "implementation-only totality oracle in the debug and release builds: all 73 formats x 1500 (thorough 20000) rounds each: sizes drawn from {0,1,2,3,4,5,7,8,9,12,13,16,17,31,33,40}^2, the 12 input colour formats, f32 content with NaN, +-inf, -0, +-1e30, subnormals, 65504, >1, <0 at rates 0, 1/2, 1/5, 1/17, "
                 "quality {Fast, Normal, High, Unreasonable}, the 4 dithering modes, both error metrics, parallel on/off, writers that fail at a byte offset inside the output by returning an error or by accepting zero bytes; "
-                "verdict per call: Ok with exactly PixelInfo::surface_bytes bytes written; UnsupportedFormat for formats without encoder and nothing written; InvalidSize(multiple) with nothing written exactly for sizes that are not a multiple; an I/O error when the writer failed; anything else, a panic or a call not returning within 40 s is a violation",
+                "verdict per call: Ok with exactly PixelInfo::surface_bytes bytes written; UnsupportedFormat for formats without encoder and nothing written; InvalidSize(multiple) with nothing written exactly for sizes that are not a multiple; an I/O error when the writer failed; anything else, a panic or a call not returning within 40 s is a violation; nearly flat content (values a few ULP / codes apart); rows of 260..4100 pixels through padded and cropped views",
         "trusted_base": BASE_TRUST + ["panics are observed through catch_unwind, hangs through a watchdog thread"],
         "assumptions": ["the BC encoders' internal float code (least squares, refinement loops) is not modelled; its totality is exercised, not proved"],
     },
@@ -186,7 +186,7 @@ PROPS = {
         "harness_timeout": 3000,
         "rule": "implementation-only oracle, debug and release builds, through Encoder::write_surface with automatic generation into a lossless target format of the input's precision and read back with Decoder: 40 (thorough 400) random sizes in 1..40 x 1..40 plus powers of two up to 256 and extreme aspect ratios (256x1, 1x256, 128x3, 5x200, 17x16, 31x33) x 12 colour formats x 5 filters x straight-alpha on/off x {contiguous, unaligned, row-pitched} input; "
                 "exactly 32 - clz(max(w,h)) levels of size max(1, dim >> level) and no bytes after the last; a constant image (alpha 1, 0.5, and a tiny non-zero alpha) stays that colour; fully opaque stays opaque; with nearest/box/triangle every value within one unit of its channel's source range (colour of fully transparent straight-alpha pixels exempt); "
-                "with straight-alpha off the colour channels do not depend on alpha; the three input layouts give identical files; generation started at a hand-written level 1 continues with levels 2..n generated from it",
+                "with straight-alpha off the colour channels do not depend on alpha; the three input layouts give identical files; generation started at a hand-written level 1 continues with levels 2..n generated from it; arrays and cube maps whose elements start generation at different levels (flat colour per element, both orders, four filters)",
         "trusted_base": BASE_TRUST + ["the resampling is done by the external `resize` crate in floating point; it is exercised, not modelled"],
         "assumptions": ["F32 results are compared with a relative tolerance of 1e-4 (constant colour) and one 16-bit unit (opacity, range)"],
     },
@@ -203,7 +203,7 @@ PROPS = {
         "kernel_sample": 100,
         "rule": "model comparison: 60 (thorough 600) parallel encodes of BC formats at sizes that split into 2..60 fragments under rayon pools of 1..8 threads: the sorted progress increments reported by the worker jobs (recovered as round(v*(h+1))) equal the sorted fragment heights of the C14 geometry model; "
                 "implementation-only oracles on Encoder::write_surface_with_progress for 12 formats (one per encoder family) x {no mips, generated mips} x {sequential, parallel with 3/4/16 threads and hook-imposed completion orders}: values in [0,1], non-decreasing, 1.0 last iff Ok; "
-                "cancellation before the call (Cancelled, nothing written, no report) and at every report index k (all k for <= 12 reports, else a sample): Cancelled whenever the k-th value is below 1.0; distinct = distinct case lines",
+                "cancellation before the call (Cancelled, nothing written, no report) and at every report index k (all k for <= 12 reports, else a sample): Cancelled whenever the k-th value is below 1.0; distinct = distinct case lines; the free function encode(): 14 (format, size, dithering) cases from one chunk to several report periods, cancellation before the call and at every report index (a final report of 100% is demanded of the Encoder only, see DESIGN.md A9)",
         "trusted_base": BASE_TRUST + ["real schedules, the mutex and SeqCst visibility of the cancellation flag are runtime behaviour: exercised, not proved", "f32 rounding of the reported values is outside the model (exact rationals)"],
         "assumptions": ["a cancellation requested at a report that already says 100% has no specified outcome (the documentation allows several reports of 100%): excluded from the oracle"],
     },
